@@ -52,7 +52,8 @@ fn roundtrip(kind: &str, c: &Color, spaces: bool) -> Result<(), (String, String)
             return Err((format!("{}-roundtrip-within-{}", kind, limit), format!("{:?} -> {} (channel difference {})", s, show_color(&back), d)));
         }
     } else {
-        let de = c.distance_delta_e_cie76(&back);
+        let (l1, l2) = (c.to_lab(), back.to_lab());
+        let de = ((l1.l - l2.l).powi(2) + (l1.a - l2.a).powi(2) + (l1.b - l2.b).powi(2)).sqrt(); // CIE76, written out
         if !(de < 2.3) {
             return Err((format!("{}-roundtrip-jnd", kind), format!("{:?} -> {} (CIE76 {:?})", s, show_color(&back), de)));
         }
